@@ -24,16 +24,18 @@ func (r *recWriter) Note(value float64, velocity uint8, key ...uint8) error {
 	r.calls = append(r.calls, fmt.Sprintf("Note(%v,%d,%v)", value, velocity, key))
 	return nil
 }
-func (r *recWriter) Tempo(bpm int)          { r.calls = append(r.calls, fmt.Sprintf("Tempo(%d)", bpm)) }
-func (r *recWriter) Meter(num, denom uint8) { r.calls = append(r.calls, fmt.Sprintf("Meter(%d,%d)", num, denom)) }
+func (r *recWriter) Tempo(bpm int) { r.calls = append(r.calls, fmt.Sprintf("Tempo(%d)", bpm)) }
+func (r *recWriter) Meter(num, denom uint8) {
+	r.calls = append(r.calls, fmt.Sprintf("Meter(%d,%d)", num, denom))
+}
 func (r *recWriter) Key(key uint8, isMajor bool, num uint8, isFlat bool) {
 	r.calls = append(r.calls, fmt.Sprintf("Key(%d,%v,%d,%v)", key, isMajor, num, isFlat))
 }
-func (r *recWriter) Text(text string)                    { r.calls = append(r.calls, "Text("+text+")") }
-func (r *recWriter) Lyric(text string)                   { r.calls = append(r.calls, "Lyric("+text+")") }
-func (r *recWriter) Marker(text string)                  { r.calls = append(r.calls, "Marker("+text+")") }
-func (r *recWriter) Close()                              { r.calls = append(r.calls, "Close()") }
-func (r *recWriter) Rest(value float64)                  { r.calls = append(r.calls, fmt.Sprintf("Rest(%v)", value)) }
+func (r *recWriter) Text(text string)                     { r.calls = append(r.calls, "Text("+text+")") }
+func (r *recWriter) Lyric(text string)                    { r.calls = append(r.calls, "Lyric("+text+")") }
+func (r *recWriter) Marker(text string)                   { r.calls = append(r.calls, "Marker("+text+")") }
+func (r *recWriter) Close()                               { r.calls = append(r.calls, "Close()") }
+func (r *recWriter) Rest(value float64)                   { r.calls = append(r.calls, fmt.Sprintf("Rest(%v)", value)) }
 func (r *recWriter) WriteTo(out io.Writer) (int64, error) { return 0, nil }
 
 // argsOp is one instance with a subset of the five settings, values variant 1 or 2.
